@@ -520,7 +520,8 @@ def _emit_fn(g, source, a, blocks, vacuity, probe_insert=None):
                     done = True
                     break
         if not done:
-            raise ExtractError(f"anchor lost: `{key}.with(|x| ..)` in {f.name}")
+            # the function no longer goes through the key: nothing to rewrite (whatever it does instead is verified as it is)
+            rules.append(("R23", f"no `{key}.with(|x| ..)` found"))
     if a.get("drop_as_infer"):
         # R2b: ` as _` after an expression (the marker of an unsizing coercion to a boxed trait object) is dropped:
         # the stand-in `Box::new` already returns the stand-in of the trait object
@@ -529,6 +530,12 @@ def _emit_fn(g, source, a, blocks, vacuity, probe_insert=None):
             raise ExtractError(f"anchor lost: ` as _` in {f.name}")
         body = re.sub(r"\s+as\s+_\b", "", body)
         rules.append(("R2b", f"` as _` dropped ({cnt}x)"))
+    if a.get("str_types"):
+        # R15c: the primitive type `str` named inside the body (`::<str>`, `&str`) -> the stand-in `Str`
+        body2 = re.sub(r"(?<![\w])str(?![\w:(])", "Str", body)
+        if body2 != body:
+            rules.append(("R15c", "`str` as a type inside the body -> `Str`"))
+            body = body2
     if a.get("str_lits"):
         # R15b: a string literal used as a value (not the message of `.expect(..)`) becomes `vstr_lit("..")`, an
         # opaque `&Str` of the unit's stand-in string type: its content is not modelled
